@@ -208,11 +208,31 @@ fn answer(scheme: &Scheme, ops: &[Sexp], q: &Sexp) -> Option<Sexp> {
         ("scheme-eq", []) => {
             let clone = scheme.clone();
             let (_, rebuilt) = build(ops)?;
+            // "the same" = equal and, as Eq/Hash demand, hashing alike (every handle is a different object in memory)
+            fn same<T: PartialEq + std::hash::Hash>(a: &T, b: &T) -> Sexp {
+                use std::hash::Hasher;
+                let h = |x: &T| {
+                    let mut s = std::collections::hash_map::DefaultHasher::new();
+                    x.hash(&mut s);
+                    s.finish()
+                };
+                if a != b {
+                    Sexp::boolean(false)
+                } else if h(a) == h(b) {
+                    Sexp::boolean(true)
+                } else {
+                    Sexp::sym("equal-but-hashes-differ")
+                }
+            }
             let field_same = match (scheme.fields().next(), clone.fields().next(), rebuilt.fields().next()) {
-                (Some(a), Some(b), Some(c)) => vec![Sexp::boolean(a == b), Sexp::boolean(a == c)],
+                (Some(a), Some(b), Some(c)) => vec![same(&a, &b), same(&a, &c)],
                 _ => vec![],
             };
-            let mut v = vec![Sexp::boolean(clone == *scheme), Sexp::boolean(rebuilt == *scheme)];
+            let moved = Box::new(scheme.clone());
+            let mut v = vec![
+                if same(&clone, scheme).is_sym("true") { same(&*moved, scheme) } else { same(&clone, scheme) },
+                same(&rebuilt, scheme),
+            ];
             v.extend(field_same);
             Some(Sexp::tagged("scheme-eq", v))
         }
